@@ -11,7 +11,7 @@ Ltac bridge := intros; cbv beta delta [
   gen_gbe_entry_start_col gen_gbe_entry_end gen_gbe_entry_ends_before_cr gen_cr_probe gen_cr_byte gen_cr_elem_probe
   gen_cr_adjust gen_mida_width gen_mida_index gen_mida_n_fill gen_mida_fill_start gen_field_len gen_gfbn_first
   gen_gfbn_step gen_gfbn_keep_len gen_vcf_shift_col gen_vcf_shift gen_sam_extra_start gen_sam_extra_len
-  gen_hfm_line_len gen_hfm_ignored gen_value_start gen_value_len gen_value_keep_len
+  gen_hfm_line_len gen_hfm_ignored gen_value_start gen_value_len gen_value_keep_len gen_stop_len m_stop_len gen_flag_len_match m_flag_len_match
   m_n_fields m_size m_keep m_sentinel m_start m_entry_end m_entry_ends_before_cr m_cr_probe m_cr_byte m_cr_adjust
   m_mida_n_fill m_mida_index m_keep_end m_pos_shift m_pos_shift_col m_extra_start m_extra_len m_line_len m_ignored
   m_value_start m_value_len] zeta;
@@ -37,6 +37,8 @@ Lemma b_mida_width : forall s e, gen_mida_width s e = e - s.  Proof. bridge. Qed
 Lemma b_mida_index : forall s e mx j, gen_mida_index s e mx j = m_mida_index e mx j.  Proof. bridge. Qed.
 Lemma b_mida_n_fill : forall s e mx, gen_mida_n_fill s e mx = m_mida_n_fill s e mx.  Proof. bridge. Qed.
 Lemma b_mida_fill_start : forall row n mx, gen_mida_fill_start row n mx = row * mx.  Proof. bridge. Qed.
+(* get_padded_field(stop_at=':'): a cell is cut at the first ':' of its window only if that ':' lies inside the cell *)
+Lemma b_stop_len : forall l p, gen_stop_len l p = m_stop_len l p.  Proof. bridge. Qed.
 (* TextBufferExtractor: length = end - start; column j of an n-column table is flat[j::n]; keep_sep adds one byte *)
 Lemma b_field_len : forall s e, gen_field_len s e = e - s.  Proof. bridge. Qed.
 Lemma b_gfbn_select : forall j n, gen_gfbn_first j n = j /\ gen_gfbn_step j n = n.  Proof. split; bridge. Qed.
@@ -49,6 +51,7 @@ Lemma b_sam_extra_len : forall ee st, gen_sam_extra_len ee st = m_extra_len ee s
 (* INFO key lookup *)
 Lemma b_hfm_line_len : forall k, gen_hfm_line_len k = m_line_len k.  Proof. bridge. Qed.
 Lemma b_hfm_ignored : forall s k size, gen_hfm_ignored s k size = m_ignored s k size.  Proof. bridge. Qed.
+Lemma b_flag_len_match : forall l k, gen_flag_len_match l k = m_flag_len_match l k.  Proof. bridge. Qed.
 Lemma b_value_start : forall s k, gen_value_start s k = m_value_start s k.  Proof. bridge. Qed.
 Lemma b_value_len : forall l k, gen_value_len l k = m_value_len l k false
                                 /\ gen_value_keep_len (gen_value_len l k) = m_value_len l k true.
